@@ -111,6 +111,40 @@ def paused_ingestion(budgets=(1, 1, 1, 1, 1, 1, 1, 1)):
     return w.scenario("directed-paused-ingestion", {"thr": 1, "seed": 15}, cmds)
 
 
+def partial_split_points():
+    """Paginated replies with every kind of split: coinciding cuts, cuts at the very start and end (empty
+    pages), 1-byte pages, many pages (C13: split points and page counts are arbitrary)."""
+    w = _w(18)
+    chain = [1]
+    for i in range(7):
+        chain.append(w.mine(chain[-1], ntx=1 if i else 0, coinbase_out=cb(1, 1000 + i)))
+    cmds = [{"c": "tick", "dt": 100000}]
+    splits = [[40, 80, 80], [0, 50, 1000000], [1000000], [0], [0, 0, 0, 0], [1, 2, 3, 4, 5, 6], [80] * 9 + [1000000] * 3]
+    for b, cuts in zip(chain[1:], splits):
+        cmds.append({"c": "offer", "initial": {"k": "partial", "item": item(b), "pages": len(cuts), "cuts": cuts, "next": []}})
+        cmds += [{"c": "hb"}] * (len(cuts) + 3)
+        cmds += [q("info"), q("balance", addr=1, mc=0)]
+    return w.scenario("directed-partial-split-points", {"thr": 3, "seed": 18}, cmds)
+
+
+def gate_heavy_short():
+    """The sync gate is measured against the BEST chain (most work), not the longest branch: a heavy
+    one-block branch against a light three-block branch, with a header announced for height 4 (C14)."""
+    w = _w(19, diffs=(1,))
+    x1 = w.mine(1, ntx=0, coinbase_out=cb(1, 1000), diff=5)
+    y = [1]
+    for i in range(4):
+        y.append(w.mine(y[-1], ntx=0, coinbase_out=cb(2, 10 + i), diff=1))
+    probe = gate_queries(random.Random(19), 2, "regtest") + [q("utxos", addr=1, mc=-1), q("balance", addr=2, mc=0), q("headers", s=0, e=-1), q("fees")]
+    cmds = [{"c": "tick", "dt": 100000}]
+    cmds += [{"c": "offer", "initial": complete([x1, y[1]], [])}, {"c": "hb"}, {"c": "hb"}] + probe
+    cmds += [{"c": "offer", "initial": complete([y[2]], [y[3]])}, {"c": "hb"}, {"c": "hb"}] + probe      # announced height 3 = best 1 + 2: synced
+    cmds += [{"c": "offer", "initial": complete([y[3]], [y[4]])}, {"c": "hb"}, {"c": "hb"}] + probe      # announced height 4 > best 1 + 2: not synced
+    cmds += [{"c": "set_config", "d": {"gate": False}}] + probe + [{"c": "set_config", "d": {"gate": True}}] + probe
+    cmds += [{"c": "offer", "initial": complete([y[4]], [])}, {"c": "hb"}, {"c": "hb"}] + probe          # header consumed: synced again
+    return w.scenario("directed-gate-heavy-short", {"thr": 50, "seed": 19, "gate": True}, cmds)
+
+
 def upgrade_points():
     """Upgrades at every phase: response stored, partial pages received, ingestion paused (C09)."""
     w = _w(16)
@@ -194,6 +228,10 @@ def directed(pid, tier="quick"):
         S += [paused_ingestion(), paused_ingestion((2, 3, 1, 1, 2))]
     if pid in ("C09", "C13", "C15"):
         S += [upgrade_points()]
+    if pid in ("C13", "C10"):
+        S += [partial_split_points()]
+    if pid == "C14":
+        S += [gate_heavy_short()]
     if pid in ("C08", "C03"):
         S += [threshold_raise_while_paused()]
     if pid in ("C20", "C05", "C01"):
@@ -243,7 +281,10 @@ def paging_history(seed, nblocks=12):
     cmds = []
     wid = 0
     live = []
+    sliced = seed % 2 == 1          # every other history: most ingestions are paused mid-block
     for c in sc["cmds"]:
+        if sliced and c.get("c") in ("hb", "ingest") and rng.random() < 0.6:
+            c = dict(c, budget=rng.randint(1, 3))
         cmds.append(c)
         if c.get("c") in ("hb", "push", "ingest"):
             if rng.random() < 0.5:
@@ -462,7 +503,7 @@ def gate_queries(rng, naddr, own_net):
 def gate_history(seed, nblocks=14):
     """Announced headers ahead of the tip, on forks, stale; flags flipped; every endpoint asked."""
     rng = random.Random(seed)
-    w = World(rng, net="regtest", naddr=3, prefix_pair=False)
+    w = World(rng, net="regtest", naddr=3, prefix_pair=False, diffs=rng.choice([(1,), (1,), (1, 3), (1, 2, 5)]))
     thr = rng.choice([1, 2, 3])
     chain = [1]
     forks = []
@@ -470,6 +511,8 @@ def gate_history(seed, nblocks=14):
         chain.append(w.mine(chain[-1], ntx=rng.choice([0, 1])))
         if rng.random() < 0.25:
             forks.append(w.mine(rng.choice(chain[-3:]), ntx=0))
+        elif forks and rng.random() < 0.2:
+            forks.append(w.mine(forks[-1], ntx=0))          # forks longer than one block (length and work disagree)
     cmds = [{"c": "tick", "dt": 100000}]
     pos = 0          # index in chain of the last delivered block (genesis)
     delivered_forks = set()
